@@ -29,12 +29,16 @@ def history(rnd, hist_id, length, skip_resolve=False):
     ops += fg.seed_ops(rnd, 'b', n_base=2, n_derived=3)
     ops += fg.seed_ops(rnd, 'a', n_base=rnd.choice([1, 2, 2, 3]), n_derived=rnd.choice([2, 4, 6]))
     plan = [None] * len(ops)
-    for _ in range(length):
-        op = fg.edit_op(rnd, 'a', span=rnd.choice([6, 10, 14]), other='b')
-        ops.append(op)
-        plan.append('op')
-        ops.append({'op': 'form.snap', 'f': 'a', 'fresh': True})
-        plan.append('snap')
+    steps = 0
+    while steps < length:
+        span = rnd.choice([6, 10, 14])
+        batch = fg.motif(rnd, 'a', span) if rnd.random() < 0.08 else [fg.edit_op(rnd, 'a', span=span, other='b')]
+        for op in batch:
+            ops.append(op)
+            plan.append('op')
+            ops.append({'op': 'form.snap', 'f': 'a', 'fresh': True})
+            plan.append('snap')
+            steps += 1
     return core.case(ops, kind='history', plan=plan)
 
 
